@@ -78,9 +78,38 @@ def jNats (l : List Nat) : String := jList toString l
 def jBins (b : Bins Item) : String :=
   "{\"sums\":" ++ jNats b.sums ++ ",\"bins\":" ++ jList (fun l => jNats (l.map (·.1))) b.lists ++ "}"
 def jErr (e : Err) : String := "{\"error\":\"" ++ toString e ++ "\"}"
+
+/-- prtpy/outputtypes.py: what the output type `ot` extracts from a bins-array (`Prtpy.Out`, theorems in
+    PrtpyProofs/BinsOps.lean).  `max()`/`min()` of an empty sequence raise ValueError in Python. -/
+def jOut (ot : String) (b : Bins Item) : String :=
+  let lists := jList (fun l => jNats (l.map (·.1))) (Out.partition b)
+  match ot with
+  | "Sums" => jNats (Out.sums b)
+  | "SortedSums" => jNats (Out.sortedSums b)
+  | "LargestSum" => if b.sums.isEmpty then jErr .valueError else toString (Out.largestSum b)
+  | "SmallestSum" => if b.sums.isEmpty then jErr .valueError else toString (Out.smallestSum b)
+  | "ExtremeSums" => if b.sums.isEmpty then jErr .valueError else jNats [(Out.extremeSums b).1, (Out.extremeSums b).2]
+  | "Difference" => if b.sums.isEmpty then jErr .valueError else toString (Out.difference b)
+  | "BinCount" => toString (Out.binCount b)
+  | "Partition" => "{\"partition\":" ++ lists ++ "}"
+  | _ => "{\"sums\":" ++ jNats b.sums ++ ",\"bins\":" ++ lists ++ "}"
 def jExcept (r : Except Err (Bins Item)) : String :=
   match r with
   | .ok b => jBins b
+  | .error e => jErr e
+/-- render through the requested output type (`out=<type>`), or the full bins-array when none is requested -/
+def jB (a : List (String × String)) (b : Bins Item) : String :=
+  match (a.find? (·.1 == "out")).map (·.2) with
+  | some ot => jOut ot b
+  | none => jBins b
+def jE (a : List (String × String)) (r : Except Err (Bins Item)) : String :=
+  match r with
+  | .ok b => jB a b
+  | .error e => jErr e
+def jEO (a : List (String × String)) (r : Except Err (Option (Bins Item))) : String :=
+  match r with
+  | .ok (some b) => jB a b
+  | .ok none => "{\"none\":true}"
   | .error e => jErr e
 def jBad (msg : String) : String := "{\"bad\":\"" ++ msg ++ "\"}"
 def jRat (q : Rat) : String := "\"" ++ toString q.num ++ "/" ++ toString q.den ++ "\""
@@ -177,35 +206,35 @@ def jRow (r : ILP.Row) : String :=
 
 def dispatch (op : String) (a : Args) : Option String :=
   match op with
-  | "greedy" => do pure (jBins (greedy val (← a.nat "k") (← a.items "items")))
-  | "roundrobin" => do pure (jBins (roundrobin val (← a.nat "k") (← a.items "items")))
-  | "multifit" => do pure (jExcept (multifit val (← a.nat "k") (← a.items "items") (← a.nat "it")))
-  | "ff" => do pure (jExcept (ffOnline val (← a.nat "B") (← a.items "items")))
-  | "ffd" => do pure (jExcept (ffDecreasing val (← a.nat "B") (← a.items "items")))
-  | "bf" => do pure (jExcept (bfOnline val (← a.nat "B") (← a.items "items")))
-  | "bfd" => do pure (jExcept (bfDecreasing val (← a.nat "B") (← a.items "items")))
-  | "cover_decreasing" => do pure (jBins (coverDecreasing val (← a.nat "B") (← a.items "items")))
-  | "twothirds" => do pure (jBins (twoThirds val (← a.nat "B") (← a.items "items")))
-  | "threequarters" => do pure (jBins (threeQuarters val (← a.nat "B") (← a.items "items")))
-  | "kk" => do pure (jExcept (kk val (← a.nat "k") (← a.items "items")))
+  | "greedy" => do pure (jB a (greedy val (← a.nat "k") (← a.items "items")))
+  | "roundrobin" => do pure (jB a (roundrobin val (← a.nat "k") (← a.items "items")))
+  | "multifit" => do pure (jE a (multifit val (← a.nat "k") (← a.items "items") (← a.nat "it")))
+  | "ff" => do pure (jE a (ffOnline val (← a.nat "B") (← a.items "items")))
+  | "ffd" => do pure (jE a (ffDecreasing val (← a.nat "B") (← a.items "items")))
+  | "bf" => do pure (jE a (bfOnline val (← a.nat "B") (← a.items "items")))
+  | "bfd" => do pure (jE a (bfDecreasing val (← a.nat "B") (← a.items "items")))
+  | "cover_decreasing" => do pure (jB a (coverDecreasing val (← a.nat "B") (← a.items "items")))
+  | "twothirds" => do pure (jB a (twoThirds val (← a.nat "B") (← a.items "items")))
+  | "threequarters" => do pure (jB a (threeQuarters val (← a.nat "B") (← a.items "items")))
+  | "kk" => do pure (jE a (kk val (← a.nat "k") (← a.items "items")))
   | "ckk" => do
-      pure (jExcept (ckk val nmOf (← a.nat "k") (← a.bool "contents") (← a.items "items") FUEL))
+      pure (jE a (ckk val nmOf (← a.nat "k") (← a.bool "contents") (← a.items "items") FUEL))
   | "ckkgen" => do
       let bound : Option Nat ← match (← a.get "bound") with
         | "inf" => pure none
         | s => s.toNat?.map some
       pure (jExceptList (ckkGen val nmOf (← a.nat "k") (← a.bool "contents") (← a.items "items") bound FUEL))
   | "snp" => do
-      pure (jExcept (snp val nmOf (← a.nat "k") (← a.bool "contents") (← a.items "items") FUEL))
+      pure (jE a (snp val nmOf (← a.nat "k") (← a.bool "contents") (← a.items "items") FUEL))
   | "rnp" => do
-      pure (jExcept (rnpF val nmOf (← a.nat "k") (← a.bool "contents") (← a.items "items") FUEL))
+      pure (jE a (rnpF val nmOf (← a.nat "k") (← a.bool "contents") (← a.items "items") FUEL))
   | "cg" => do
       let cfg : CgCfg := { obj := (← a.get "obj" >>= parseObjective), useLb := (← a.bool "lb"),
                            useFast := (← a.bool "fast"), useH3 := (← a.bool "h3"), useSeen := (← a.bool "seen") }
       let cut : Option Nat ← match (← a.get "cut") with
         | "inf" => pure none
         | s => s.toNat?.map some
-      pure (jExceptOpt (cg val cfg (← a.nat "k") (← a.items "items") cut FUEL))
+      pure (jEO a (cg val cfg (← a.nat "k") (← a.items "items") cut FUEL))
   | "dp" => do
       let o ← a.get "obj" >>= parseObjective
       pure (match optValue o (← a.nat "k") ((← a.items "items").map val) with
@@ -224,7 +253,7 @@ def dispatch (op : String) (a : Args) : Option String :=
         | "inf" => pure none
         | s => s.toNat?.map some
       pure (match cbldm val (← a.items "items") d cut with
-            | some b => jBins b
+            | some b => jB a b
             | none => "{\"none\":true}")
   | "gentree" => do
       let lb ← a.get "lb" >>= parseInt
@@ -239,7 +268,7 @@ def dispatch (op : String) (a : Args) : Option String :=
       pure (jList jBins (allCombContents nmOf (Bins.mk s1 l1) (Bins.mk s2 l2)))
   | "bin_completion" => do
       pure (match BC.binCompletion (← a.nat "B") ((← a.items "items").map val) FUEL with
-            | .ok bins => "{\"sums\":" ++ jNats (bins.map sumL) ++ ",\"bins\":" ++ jList jNats bins ++ "}"
+            | .ok bins => jB a (Bins.mk (bins.map sumL) (bins.map fun l => l.map fun x => (x, x)))
             | .error e => jErr e)
   | "uniq" => do
       let ls ← a.get "lists" >>= parseBinsOf parseNatList
